@@ -258,19 +258,19 @@ type SiteDB struct {
 	noInline  bool
 	exprFuncs bool // resolvers see through expression functions (local DBs for bounds reasoning)
 	// entry contexts (interprocedural)
-	EntryMust  map[*types.Func]map[string]bool
-	EntryMay   map[*types.Func]map[string]bool
-	Exits      map[*FuncInfo][]*ExitRec
-	Virtual    map[*FuncInfo][]*Site    // callbacks that are declared functions (see Site.Virtual)
-	DeepExits  map[*FuncInfo][]*ExitRec // exits of helpers analysed in place, keyed by the root function
-	Deep       map[*FuncInfo][]*Site    // call sites inside callees analysed in place, keyed by the root function
-	DeepFields []*FieldAccess           // field accesses inside callees analysed in place (Root = the root function)
-	Fields     []*FieldAccess
-	Exprs      map[ast.Node]*HState // state before index / slice expressions
-	Blocking   []*Site              // channel operations, select statements, go statements (Callee: "<-chan", "chan<-", "select", "go")
-	DeepBlocking []*Site            // the same inside callees analysed in place (Root = the root function, Inl set)
-	CountIn    map[string]map[string]bool // root function key -> callee keys whose calls are counted per path (facts #c1_<key>, #c2_<key>)
-	LockAcqs   []*LockAcq
+	EntryMust    map[*types.Func]map[string]bool
+	EntryMay     map[*types.Func]map[string]bool
+	Exits        map[*FuncInfo][]*ExitRec
+	Virtual      map[*FuncInfo][]*Site    // callbacks that are declared functions (see Site.Virtual)
+	DeepExits    map[*FuncInfo][]*ExitRec // exits of helpers analysed in place, keyed by the root function
+	Deep         map[*FuncInfo][]*Site    // call sites inside callees analysed in place, keyed by the root function
+	DeepFields   []*FieldAccess           // field accesses inside callees analysed in place (Root = the root function)
+	Fields       []*FieldAccess
+	Exprs        map[ast.Node]*HState       // state before index / slice expressions
+	Blocking     []*Site                    // channel operations, select statements, go statements (Callee: "<-chan", "chan<-", "select", "go")
+	DeepBlocking []*Site                    // the same inside callees analysed in place (Root = the root function, Inl set)
+	CountIn      map[string]map[string]bool // root function key -> callee keys whose calls are counted per path (facts #c1_<key>, #c2_<key>)
+	LockAcqs     []*LockAcq
 }
 
 // LockAcq is one explicit Lock/RLock call with the locks that may be held at that point.
@@ -1309,8 +1309,8 @@ func (db *SiteDB) analyse(fi *FuncInfo) {
 					if !isVar || obj.Pkg() == nil || obj.Parent() == obj.Pkg().Scope() || !copyableExpr(info, v.Rhs[i]) {
 						continue
 					}
-					if _, isLit := unparen(v.Rhs[i]).(*ast.BasicLit); isLit {
-						continue
+					if tv, ok := info.Types[v.Rhs[i]]; ok && (tv.Value != nil || tv.IsNil()) {
+						continue // a constant is not a place that later tests could speak about
 					}
 					x, e := res.nameOf(obj), res.str(v.Rhs[i])
 					if x == e || strings.Contains(e, " ") || mentionsIdent(e, x) || res.str(id) != x {
